@@ -227,3 +227,162 @@ def run(ctx):
                 if outer(l) and "pyo3::Bound<" in f.local_ty(l) and "WorkItem" not in f.local_ty(l):
                     ck.ob("R27", f"{FN}|{f.local_name(l)}.{m}", False, "the keep-alive list must not release objects before the map is done",
                           site=f.where(b))
+
+
+# ------------------------------------------------------------------------------------------------- R27b
+def _abbr(s):
+    """abbreviate the recurring sub-expressions of the conversion loop"""
+    OBJ = "((::pop(&mut stack) as Some).0 as Visit).0"
+    s = s.replace(OBJ, "OBJ")
+    PAIR = '((Try>::branch(PyAnyMethods>::extract(&(Try>::branch(PyAnyMethods>::getattr(&OBJ, "pair")) as Continue).0)) as Continue).0 as Some).0'
+    ATOM = '((Try>::branch(PyAnyMethods>::extract(&(Try>::branch(PyAnyMethods>::getattr(&OBJ, "atom")) as Continue).0)) as Continue).0 as Some).0'
+    s = s.replace(PAIR + ".0", "LEFT").replace(PAIR + ".1", "RIGHT").replace(PAIR, "PAIR").replace(ATOM, "BYTES")
+    s = s.replace("((::pop(&mut stack) as Some).0 as BuildPair)", "BP")
+    for x in ("OBJ", "LEFT", "RIGHT"):
+        s = s.replace(f"(::as_ptr(&{x}) as usize)", f"ID({x})")
+    import re
+    s = re.sub(r"\*Index>::index\(&identity_map, &(ID\(\w+\)|BP\.\w+)\)", r"IM[\1]", s)
+    return s
+
+
+def _expand_bools(f, e):
+    """expand named bool locals (left_done / right_done) to their defining expressions"""
+    if isinstance(e, tuple):
+        if e and e[0] == "named" and f.local_ty(e[2]) == "bool":
+            return _expand_bools(f, e[3])
+        return tuple(_expand_bools(f, x) for x in e)
+    return e
+
+
+def structure(ctx, ck, cr):
+    ck.rule("R27b", "the converted node of an object is built from ITS OWN atom bytes / the converted nodes of ITS OWN left and right children, in this order, "
+                    "is de-duplicated under exactly that key, and is recorded under the object's own address")
+    f = cr.fn(FN)
+
+    # role names by type, so that renaming a local is not reported
+    ROLE = (("HashMap<usize, clvmr::NodePtr", "identity_map"), ("HashMap<std::vec::Vec<u8>, clvmr::NodePtr", "atom_map"),
+            ("HashMap<(clvmr::NodePtr, clvmr::NodePtr), clvmr::NodePtr", "pair_map"), ("Vec<api::clvm_tree_to_lazy_node::WorkItem", "stack"),
+            ("clvmr::Allocator", "allocator"))
+    ren = {}
+    for l in range(1, len(f.locals)):
+        nm = f.local_name(l)
+        if not nm:
+            continue
+        ty = f.local_ty(l)
+        for pat, role in ROLE:
+            if ty.startswith("std::collections::" + pat) or ty.startswith("std::vec::" + pat) or ty == pat or ty.startswith(pat):
+                ren[nm] = role
+        if l == 1:
+            ren[nm] = "obj"
+    import re as _re
+
+    def canon(sx):
+        for nm, role in ren.items():
+            if nm != role:
+                sx = _re.sub(r"(?<![A-Za-z0-9_])" + _re.escape(nm) + r"(?![A-Za-z0-9_])", role, sx)
+        return sx
+
+    def args(t):
+        return [_abbr(canon(show(f.expr_op(a)))) for a in t["args"]]
+    calls = {}
+    for b, t in f.calls():
+        c = t.get("callee") or ""
+        name = c.split("::")[-1]
+        if c.endswith(("Allocator::new_pair", "Allocator::new_atom")):
+            calls.setdefault(name, []).append((b, args(t)[1:]))
+        elif "HashMap" in c and name in ("insert", "get", "contains_key"):
+            a = args(t)
+            calls.setdefault(name + ":" + a[0].replace("&mut ", "").replace("&", ""), []).append((b, a[1:]))
+        elif c.endswith("Vec::<T, A>::push"):
+            a = args(t)
+            calls.setdefault("push:" + a[0].replace("&mut ", ""), []).append((b, a[1:]))
+    np_ = sorted(a for _, a in calls.get("new_pair", []))
+    ck.ob("R27b", FN + "|new_pair children", np_ == sorted([["IM[ID(LEFT)]", "IM[ID(RIGHT)]"], ["IM[BP.left_id]", "IM[BP.right_id]"]]),
+          "both pair constructions use (converted left, converted right) of the object being built", site=f.where(calls.get("new_pair", [(0, 0)])[0][0]), detail=np_)
+    gets = sorted(a[0] for _, a in calls.get("get:pair_map", []))
+    ck.ob("R27b", FN + "|pair_map lookup", gets == sorted(["&tuple(IM[ID(LEFT)], IM[ID(RIGHT)])", "&tuple(IM[BP.left_id], IM[BP.right_id])"]),
+          "pairs are looked up under (converted left, converted right)", site=f.where(0), detail=gets)
+    ins = sorted((a[0], a[1][:60]) for _, a in calls.get("insert:pair_map", []))
+    okins = len(ins) == 2 and {k for k, _ in ins} == {"tuple(IM[ID(LEFT)], IM[ID(RIGHT)])", "tuple(IM[BP.left_id], IM[BP.right_id])"} and \
+        all("Allocator::new_pair(" in v for _, v in ins)
+    for _, a in calls.get("insert:pair_map", []):
+        # the stored value is the pair created from the same key
+        k = a[0][len("tuple("):-1]
+        okins = okins and f"Allocator::new_pair(&mut allocator, {k})" in a[1]
+    ck.ob("R27b", FN + "|pair_map insert", okins, "a new pair is stored under the key it was created from", site=f.where(0), detail=ins)
+    na = [a for _, a in calls.get("new_atom", [])]
+    ck.ob("R27b", FN + "|new_atom bytes", na == [["&*Deref>::deref(&BYTES)"]], "the atom is created from the bytes of the object's own .atom", site=f.where(0), detail=na)
+    ag = [a[0] for _, a in calls.get("get:atom_map", [])]
+    ai = [(a[0], "Allocator::new_atom(&mut allocator, &*Deref>::deref(&BYTES))" in a[1]) for _, a in calls.get("insert:atom_map", [])]
+    ck.ob("R27b", FN + "|atom_map", ag == ["&BYTES"] and ai == [("BYTES", True)], "atoms are de-duplicated by their bytes", site=f.where(0), detail={"get": ag, "insert": ai})
+    idins = sorted(a[0] for _, a in calls.get("insert:identity_map", []))
+    vals = []
+    for b, t in f.calls():
+        c = t.get("callee") or ""
+        if "HashMap" in c and c.endswith("::insert") and "identity_map" in canon(show(f.expr_op(t["args"][0], deep=False))):
+            pl = t["args"][2].get("mv") or t["args"][2].get("cp")
+            # follow plain copies back to the `node` local
+            while pl and not pl["p"] and len(f.defs(pl["l"])) == 1 and f.defs(pl["l"])[0][1] != "T" and "use" in f.def_rvalue(f.defs(pl["l"])[0]) \
+                    and (f.def_rvalue(f.defs(pl["l"])[0])["use"].get("mv") or f.def_rvalue(f.defs(pl["l"])[0])["use"].get("cp")):
+                u = f.def_rvalue(f.defs(pl["l"])[0])["use"]
+                pl = u.get("mv") or u.get("cp")
+            srcs = sorted(("created" if "Allocator::new_" in dx else "existing" if "::get(&" in dx else "?")
+                          for dx in (show(f.expr_rvalue(f.def_rvalue(d_))) if d_[1] != "T" else "call" for d_ in f.defs(pl["l"]))) if pl and not pl["p"] else ["?"]
+            vals.append("/".join(srcs))
+    vals = sorted(vals)
+    ck.ob("R27b", FN + "|identity_map insert", idins == ["BP.id", "ID(OBJ)", "ID(OBJ)"] and vals == ["created/existing"] * 3,
+          "the converted node is recorded under the object's own address (three sites)", site=f.where(0), detail=list(zip(idins, vals)))
+    # the node recorded is the one just looked up / created: each `node` local has exactly the two sources (existing | new)
+    pushes = [a[0] for _, a in calls.get("push:stack", [])]
+    bp = [p for p in pushes if p.startswith("BuildPair(")]
+    vs = sorted(p for p in pushes if p.startswith("Visit("))
+    ck.ob("R27b", FN + "|deferred pair", bp == ["BuildPair(ID(OBJ), ID(LEFT), ID(RIGHT))"],
+          "a deferred pair remembers (own address, left address, right address)", site=f.where(0), detail=bp)
+    fields = None
+    for b in f.reachable_blocks():
+        for st in f.stmts(b):
+            rv = st.get("rv", {})
+            if "agg" in rv and isinstance(rv["agg"][0], dict) and rv["agg"][0].get("variant") == "BuildPair":
+                fields = rv["agg"][0].get("fields")
+    ck.ob("R27b", FN + "|deferred pair fields", fields == ["id", "left_id", "right_id"], "BuildPair's fields are (id, left_id, right_id) in this order", site=f.where(0), detail=fields)
+    ck.ob("R27b", FN + "|children visited", vs == ["Visit(LEFT)", "Visit(RIGHT)"], "both children are scheduled for conversion", site=f.where(0), detail=vs)
+    cks = sorted(a[0] for _, a in calls.get("contains_key:identity_map", []))
+    ck.ob("R27b", FN + "|done tests", cks == ["&ID(LEFT)", "&ID(OBJ)", "&ID(RIGHT)"], "an object counts as done iff its own address is in the identity map", site=f.where(0), detail=cks)
+    # left_done / right_done guard the matching Visit pushes
+    ok = True
+    det = {}
+    for side in ("LEFT", "RIGHT"):
+        pb = [b for b, a in calls.get("push:stack", []) if a[0] == f"Visit({side})"]
+        cond = None
+        if pb:
+            for x in f.dominators(pb[0]):
+                if f.term(x)["k"] == "switch" and f.term(x).get("ty") == "bool":
+                    c = _abbr(canon(show(_expand_bools(f, f.switch_cond(x)))))
+                    be = f.bool_edges(x)
+                    if "contains_key(&identity_map, &ID(" in c and be:
+                        edge = "true" if f.dominates(be[0], pb[0]) or be[0] == pb[0] else "false" if f.dominates(be[1], pb[0]) or be[1] == pb[0] else None
+                        cond = (c, edge)
+                        break
+        det[side] = cond
+        want_in = f"contains_key(&identity_map, &ID({side}))"
+        if not cond or want_in not in cond[0]:
+            ok = False
+        else:
+            neg = cond[0].startswith("Not(")
+            ok = ok and ((cond[1] == "true") == neg)
+    ck.ob("R27b", FN + "|visit guards", ok, "a child is scheduled exactly when ITS address is not yet in the identity map", site=f.where(0), detail=det)
+    # result
+    root = None
+    for b, t in f.calls():
+        if (t.get("callee") or "").endswith("LazyNode::new"):
+            root = _abbr(canon(show(f.expr_op(t["args"][1]))))
+    ck.ob("R27b", FN + "|root", root == "*Index>::index(&identity_map, &(::as_ptr(&obj) as usize))", "the result is the converted node of the object passed in",
+          site=f.where(0), detail=root)
+
+
+_run_liveness = run
+
+
+def run(ctx):  # noqa: F811
+    _run_liveness(ctx)
+    structure(ctx, ctx.check, ctx.crate("wheel"))
